@@ -15,6 +15,8 @@ import Avfs.Lemmas.StepCounter
   * C05 (a failed call changes nothing) — `StepFailed`:
       `step_failed_unchanged`, `step_chdir_failed`, `step_chdir_rebinds`, `step_file_failed`;
       `StepCounter.writeFile_empty_refused`: `writeFile ""` is refused with the state unchanged (no exclusion needed).
+      `StepCounter.writeFile_oversize_counterexample`: `writeFile` with more than `maxFileSize` bytes creates or
+      truncates the file and then fails (EINVAL): hence the hypothesis `hw` of `step_failed_unchanged`.
   * C11 (view isolation) — `StepViews`:
       `step_view_isolation`, `step_file_view_isolation`, `step_setUser_store`, `step_setUMask_store`, `step_chdir_store`.
   * C07 (no panic / no hang, relative to `SearchOK`) — `StepNoPanic`:
